@@ -15,6 +15,12 @@ SR = os.environ.get("SEEDREPO", "/tmp/seedrepo")
 WT, SB = D + "/wt", SR + "_b"
 patch = "%s/%s/patch.diff" % (D, m)
 res = {"id": pid, "m": m}
+PHASE = os.environ.get("SEED_PHASE", "all")     # all | checks (demo + checks, no suite) | suite (suite only, merges)
+_resf = "/tmp/seedres/%s-%s.json" % (pid, m)
+if PHASE == "suite" and os.path.exists(_resf):
+    res = json.load(open(_resf)); os.environ["SEED_FORCE"] = "1"
+    try: os.remove("/tmp/seedres/%s-%s.lock" % (pid, m))
+    except OSError: pass
 def sh(cmd, **kw):
     return subprocess.run(cmd, shell=True, capture_output=True, text=True, **kw)
 def demo_cmd(path):
@@ -49,10 +55,15 @@ except FileExistsError:
     print("another worker has it"); sys.exit(0)
 try:
     sh("git -C %s checkout -q -- ." % WT)
-    r = sh("cd %s/%s && %s" % (D, m, demo_cmd("%s/%s/demo.txt" % (D, m))), timeout=1800)
-    res["demo_pristine_rc"] = r.returncode
-    a = sh("git -C %s apply %s" % (WT, patch))
-    if a.returncode != 0:
+    if PHASE == "suite":
+        a = None
+    else:
+        r = sh("cd %s/%s && %s" % (D, m, demo_cmd("%s/%s/demo.txt" % (D, m))), timeout=1800)
+        res["demo_pristine_rc"] = r.returncode
+        a = sh("git -C %s apply %s" % (WT, patch))
+    if a is None:
+        pass
+    elif a.returncode != 0:
         res["error"] = "patch does not apply to author's worktree: " + a.stderr[-300:]
     else:
         r = sh("cd %s/%s && %s" % (D, m, demo_cmd("%s/%s/demo.txt" % (D, m))), timeout=1800)
@@ -67,16 +78,18 @@ try:
         res["error"] = "patch does not apply to /repo HEAD: " + a.stderr[-300:]
     else:
         t = time.time()
-        sh("cmake --build %s -j14 -- -k0 > %s/seed_build.log 2>&1" % (SB, SB), timeout=7200)
-        c = sh("ctest --test-dir %s -j8 --timeout 900 2>&1 | grep -E 'tests passed|tests failed|^[[:space:]]+[0-9]+ - '" % SB, timeout=7200)
-        res["suite_s"] = round(time.time() - t)
-        res["suite_tail"] = c.stdout[-700:]
+        if PHASE != "checks":
+          sh("cmake --build %s -j14 -- -k0 > %s/seed_build.log 2>&1" % (SB, SB), timeout=7200)
+        c = sh("true") if PHASE == "checks" else sh("ctest --test-dir %s -j8 --timeout 900 2>&1 | grep -E 'tests passed|tests failed|^[[:space:]]+[0-9]+ - '" % SB, timeout=7200)
         import re
-        mm = re.search(r"(\d+) tests failed out of (\d+)", c.stdout)
-        res["suite_failed"] = int(mm.group(1)) if mm else None
-        res["suite_failed_names"] = re.findall(r"\d+ - (\w+) \((Failed|Not Run|Timeout|Subprocess aborted|SEGFAULT)\)", c.stdout)
-        checks = {}
-        for cid in [pid] + extra:
+        if PHASE != "checks":
+            res["suite_s"] = round(time.time() - t)
+            res["suite_tail"] = c.stdout[-700:]
+            mm = re.search(r"(\d+) tests failed out of (\d+)", c.stdout)
+            res["suite_failed"] = int(mm.group(1)) if mm else None
+            res["suite_failed_names"] = re.findall(r"\d+ - (\w+) \((Failed|Not Run|Timeout|Subprocess aborted|SEGFAULT)\)", c.stdout)
+        checks = res.get("checks", {})
+        for cid in ([] if PHASE == "suite" else [pid] + extra):
             r = sh("cd %s && VERIF_REPO=%s python3 check.py %s 2>&1" % (V, SR, cid), timeout=3600)
             lines = [l[:260] for l in r.stdout.splitlines() if l.startswith(("VIOLATION", "[C"))]
             checks[cid] = {"rc": r.returncode, "lines": lines[:8]}
